@@ -555,7 +555,7 @@ class Gen:
         if k == "comment":
             return ["comment", self.ch(["", " note ", " {{ s }} ", " {% if %} ", "x\ny"])]
         if k == "raw":
-            return ["raw", self.ch(["", " {{ s }} ", "{% if x %}", "plain", " a\n b "])]
+            return ["raw", self.ch(["", " {{ s }} ", "{% if x %}", "plain", " a\n b ", "a{", "{", "%}", "}}", "#}", "{%", "a{ "])]
         if k == "doc":
             return ["doc", self.ch(["", " text ", " {{ s }} "])]
         if k == "inline":
